@@ -432,6 +432,6 @@ def run(ctx, rep):
         if cfg is None:
             rep.floor("C04.R1", "xor passes compared with their TK1 setter (GF(2) maps)", nwalk, 0)
             rep.floor("C04.R1", "core set_tweak functions", nst, 2)
-            rep.floor("C04.R4", "CTR tweak entry points over all back ends", nctr, 10)
+            rep.floor("C04.R4", "CTR tweak entry points over all back ends", nctr, 4)
         else:
             ctx.release(cfg)
